@@ -14,6 +14,7 @@ else
 fi
 for p in "$@"; do
   out=$(unshare -m sh -c "mount --bind $iso/repo /repo && mount --bind $iso/verif /verif && cd /verif && ./check $p --tier ${TIER:-quick}" 2>&1); rc=$?
+  [ -n "${KEEP_OUT:-}" ] && echo "$out" > /tmp/isoout-$name-$p.txt
   echo "seed=$name check=$p rc=$rc $(echo "$out" | grep -E '^(VIOLATION|INCONCLUSIVE|OK)' | head -2 | tr '\n' '|' | cut -c1-200)"
   echo "$out" | grep -E '^  predicate=' | sort | uniq -c | head -4
   [ -n "${SHOW_DRIFT:-}" ] && echo "$out" | grep -E '^DRIFT' | cut -c1-300 | head -${SHOW_DRIFT}
